@@ -87,8 +87,9 @@ CLAIMED = {
          "node of merged callers waiter_no_lost_wakeup + waiter_teardown_safe; necessity witness lost_wakeup_without_fences. Tie: the "
          "C01 trace refinement (real wait_for_readers/wait_gp/wake_up_gp/urcu-wait.h under the shim, futex fault plans incl. ENOSYS "
          "compat path) plus a systematic one-preemption sweep around the spin->sleep transition; the runtime's deadlock/step-budget "
-         "detectors give concrete failing schedules. Partial: lock-order deadlock freedom and 'eventually' (fairness) are not theorems; "
-         "qsbr/bp not covered yet.",
+         "detectors give concrete failing schedules; qsbr's two-level waiting-flag handshake has its own TSO model and theorems "
+         "(qsbr_no_lost_wakeup, qsbr_armed_visible); bp has no futex (poll loop) and is covered by the tie and the budget detector. "
+         "Partial: lock-order deadlock freedom and 'eventually' (fairness) are not theorems.",
     note="Trusted: Lean kernel; x86-TSO + futex + sys_membarrier contracts; fair scheduler for 'eventually'; the abstract handshake "
          "models are related to the code by the event-level replay on explored schedules only.",
     technique="Lean 4 inductive-invariant proofs (TSO futex handshake, wait-node hand-over) + event-level trace refinement with fault injection and systematic preemption sweep",
@@ -98,10 +99,18 @@ CLAIMED = {
          "unregistered_never_scanned, scan_targets_registered, lists_partition, registered_late_not_waited, unregister_leaves_clean, and "
          "gp_guarantee itself (proved on the model with dynamic registration). Tie: the C01 trace refinement with register/unregister "
          "churn; the driver tracks registry/cur_snap/qs as ordered lists exactly as the cds_list operations order them, so every scan "
-         "load must hit the reader the C list order dictates. Partial: the bp flavor's automatic registration and registry arena, and "
-         "qsbr, are not covered by this check yet.",
-    note="Trusted: as C01. bp (arena growth, slot reuse, signal masking, thread-exit destructor) and qsbr registration are outside this check.",
-    technique="Lean 4 inductive-invariant proof on the TSO grace-period model + event-level trace refinement with registration churn",
+         "load must hit the reader the C list order dictates (memb, mb, qsbr, bp). bp flavor (Gp/BpArena.lean, Props/C15Bp.lean): "
+         "registry arena as a transition system with one step per critical section — slot_stable, growth_extends_last_only, slot_unique, "
+         "thread_has_one_slot, register_first_free, slot_reuse, capacity_closed_form, used_counts_exact, registry_matches_alloc, "
+         "registration_never_fails, exit_unregisters, prune_keeps_only_forking_thread, unmap_only_when_empty; registration versus "
+         "signals: registration_signal_atomic, never_registered_twice, registry_lock/init_lock_never_self_deadlocks, signal_safe (+ the "
+         "Lean record of the repaired exit-path deadlock). Tie for bp: the real urcu-bp.c with mmap/mremap/munmap/pthread_sigmask/"
+         "mutex/key functions interposed, up to 140 simulated and 70 real threads, mremap outcomes forced, SIGUSR1 handlers using RCU "
+         "raised around every interposed call; every arena decision replayed on the model (Driver/BpArena.lean).",
+    note="Trusted: as C01; bp arena: slot identity stands for the address (chunks only appended, successful in-place mremap does not move: OS "
+         "contract, real pointers of live readers compared after every section); each rcu_registry_lock / init_lock critical section is "
+         "one atomic model step; handlers only run rcu_read_lock/unlock.",
+    technique="Lean 4 inductive-invariant proofs (TSO grace-period model with dynamic registration; bp registry-arena and signal-mask transition systems) + event-level trace refinement with registration churn and interposed OS calls",
     design_ref="§4 C15", engine="gp"),
  "C20": dict(
     text="Lean 4 theorems over BitVec w for every width (8/16/32/64) and every operand: op_semantics (each uatomic op of the x86 and the "
@@ -119,15 +128,36 @@ CLAIMED = {
     text="Lean 4 theorems gp_guarantee / gp_litmus / nested_only_outermost: inductive invariant (23 clauses, one lemma per transition) "
          "over an explicit x86-TSO model of the two-pass phase-flip grace period of src/urcu.c, for any number of readers, any nesting, "
          "readers (un)registering at any time, any number of grace periods, in the three configurations memb+sys_membarrier, memb "
-         "fallback and mb. Tie: the real urcu.c + static headers run unmodified under a macro shim and a deterministic cooperative "
+         "fallback and mb; the bp flavor is the same algorithm and model; qsbr has its own TSO model (Gp/Qsbr.lean: counter increment, "
+         "single scan, offline/online, caller offline during its own grace period) with gp_guarantee_qsbr / gp_litmus_qsbr / "
+         "waited_reader_stays_old. Tie: the real urcu.c, urcu-qsbr.c, urcu-bp.c + static headers run unmodified under a macro shim and a deterministic cooperative "
          "scheduler; every shared access/barrier/lock/futex event of every thread is matched against an event-level transliteration "
          "of the C text (Driver/Gp.lean) which replays the induced labels on the proven model. TSO-only failures are reported with the "
-         "Lean-checked necessity witness (Neg/C01.lean). qsbr and bp flavors are not yet covered by this check (partial).",
+         "Lean-checked necessity witness (Neg/C01.lean). Configurations run: memb+membarrier, memb fallback, mb, qsbr, bp with and without "
+         "sys_membarrier. Partial: the 32-bit two-phase qsbr variant is not built here.",
     note="Trusted: Lean kernel; x86-TSO machine and sys_membarrier contract; the event-level transliteration is validated on the "
          "explored schedules only (not proved to refine the abstract model); harness runs are SC; compiler barriers checked for "
-         "presence only; qsbr/bp flavors not covered yet.",
+         "presence only; 64-bit counters do not wrap.",
     technique="Lean 4 inductive-invariant proof on an x86-TSO transition system + event-level trace refinement of the real source under a cooperative scheduler",
     design_ref="§4 C01, §10", engine="gp"),
+ "C11": dict(
+    text="Lean 4 theorems on x86-TSO explicit-pc models of cds_wfs (Wfs/Model.lean) and cds_lfs / legacy cds_lfs_rcu (Lfs/Model.lean), any "
+         "number of threads, every interleaving, nodes recycled, per-thread FIFO store buffers: wfs_refines_lifo / lfs_refines_lifo (the "
+         "history of linearisation events with the results computed from concrete memory is a legal sequential LIFO history and memory "
+         "represents the abstract stack; every step is a stutter or the sequential operation), *_each_node_popped_once (conservation), "
+         "*_pop_all_returns_all_in_lifo_order_and_empties, *_iteration_exact, *_push_ret_consistent, *_empty_consistent, "
+         "*_pop_null_iff_empty, lfs_pop_returns_top, wfs_no_aba / lfs_no_aba (mutex, single consumer and RCU-protected poppers with "
+         "recycling only after a GpSpec grace period), lfs_rcu_node_not_recycled, lfs_tso_private_init, wfs_iteration/pop_past_incomplete_"
+         "push; necessity witness lfs_unprotected_aba_witness. Tie: the real src/wfstack.c, src/lfstack.c, src/rculfstack.c (+ real "
+         "src/urcu.c for the RCU scheme) under the macro shim and cooperative scheduler; every trace replayed by Driver/Wfs.lean / "
+         "Driver/Lfs.lean on the proven models; independent C oracle (LIFO linearizability, return values, exactly-once, recycled-node "
+         "accesses); random/PCT/one-preemption sweep; required-branch coverage enforced. Partial: wfstack poppers under RCU (technique 1 "
+         "of wfstack.h) have no L2 model (C11_full stays stated, unproved).",
+    note="Trusted: Lean kernel; x86-TSO; GpSpec as the meaning of synchronize_rcu (composition by interface, the model's guard is "
+         "re-checked at every real synchronize_rcu return on explored schedules); one popped list per thread at a time; L1 ⊑ L2 checked on "
+         "explored schedules only; plain node->next initialisation reported by the scenario.",
+    technique="Lean 4 refinement/invariant proofs on TSO transition systems (ghost abstract stack, linearisation events) + event-level trace refinement of the real sources",
+    design_ref="§4 C11", engine="stacks"),
  "C14": dict(
     text="Lean 4 theorems poll_sound / poll_monotone / poll_no_stuck / poll_progress (inductive invariant over all operation "
          "interleavings, any number of readers and handles) on an executable model of urcu-poll-impl.h; the model is tied to "
